@@ -18,7 +18,7 @@ static struct op OPS[MAXOPS]; static int NOPS;
 #define NSLOT_MAX 3
 static int NSLOT = 2;
 static const char *PROFILE = "api";
-static int P_API, P_FEAT, P_CRYPT, P_INJECT;
+static int P_API, P_FEAT, P_CRYPT, P_INJECT, P_TABLES;
 
 /* ---- argument domains */
 static const char *PASSWORDS[12]; static int NPW;
@@ -265,6 +265,7 @@ static void battery(struct mstate *m) {
         const rseed *r = &m->s[i];
         for (int c = 0; c < 2; c++) {
             obs o; unsigned coin = c ? 2047 : 0; env_clear_log(); observe(SLOT[i], coin, &o); BAT_CALLS += 13;
+            if (E.n_kdf != 1 || E.kdf.table != m->table) { snprintf(k, sizeof k, "c18:kdf-source:keygen"); BADV(k, "keygen on slot %d: the key-derivation function of the table in force (table %c) was not the one called exactly once (calls: %lu, table of the last call: %c)", i, 'A' + m->table, E.n_kdf, 'A' + E.kdf.table); }
             if (!obs_matches_ref(&o, r, coin, why, sizeof why)) { snprintf(k, sizeof k, "c13:battery-observe:slot%d", i); BADV(k, "slot %d does not present the model seed: %s", i, why); }
         }
         if (r->secret[18] & 0xC0) BADV("c13:model-internal", "model secret out of range");
@@ -410,7 +411,7 @@ static void add_op(int kind, int a, int b, int c, const char *fmt, ...) { struct
 
 static void build_profile(void) {
     memset(LONGPW, 'x', 400); LONGPW[400] = 0;
-    P_API = !strcmp(PROFILE, "api"); P_FEAT = !strcmp(PROFILE, "feat"); P_CRYPT = !strcmp(PROFILE, "crypt"); P_INJECT = !strcmp(PROFILE, "inject");
+    P_API = !strcmp(PROFILE, "api"); P_FEAT = !strcmp(PROFILE, "feat"); P_CRYPT = !strcmp(PROFILE, "crypt"); P_INJECT = !strcmp(PROFILE, "inject"); P_TABLES = !strcmp(PROFILE, "tables");
     if (P_API) {
         PASSWORDS[0] = "a"; PASSWORDS[1] = "\xC3\xA9"; NPW = 2;
         RECODES[0] = (struct recv){ 0, 0, 1 }; RECODES[1] = (struct recv){ 2, 2047, 0 }; RECODES[2] = (struct recv){ 8, 0, 1 }; NREC = 3;
@@ -428,7 +429,7 @@ static void build_profile(void) {
         add_op(O_FREENULL, 0, 0, 0, "free(NULL)");
         add_op(O_ENABLE, 0, 0, 0, "enable_features(0)"); add_op(O_ENABLE, 1, 0, 0, "enable_features(1)"); add_op(O_ENABLE, 7, 0, 0, "enable_features(7)");
         add_op(O_INJECT, 0, 0, 0, "inject(A)"); add_op(O_INJECT, 1, 7, 0, "inject(B:time,alloc,free=NULL)");
-        add_op(O_INJECT, 1, 2, 0, "inject(B:alloc=NULL)"); add_op(O_INJECT, 0, 4, 0, "inject(A:free=NULL)");      /* each optional entry is optional on its own */
+        add_op(O_INJECT, 1, 2, 0, "inject(B:alloc=NULL)");      /* each optional entry is optional on its own (the inject profile has all eight patterns) */
         add_op(O_ARM, 0, 0, 0, "arm-allocation-fault");
         add_op(O_BADCALL, 0, 0, 0, "load(bad-checksum)"); add_op(O_BADCALL, 1, 0, 0, "load(bad-header)"); add_op(O_BADCALL, 2, 0, 0, "decode(two-words)");
         add_op(O_BADCALL, 3, 0, 0, "decode_explicit(unknown-words)"); add_op(O_BADCALL, 4, 0, 0, "decode(wrong-coin)");
@@ -459,6 +460,15 @@ static void build_profile(void) {
         add_op(O_RELOAD, 0, 1, 0, "load(store(slot0))->slot1");
         for (int v = 0; v < NREC; v++) add_op(O_RECODE, 0, 1, v, "decode%s(encode(slot0,%s))->slot1", RECODES[v].autodetect ? "" : "_explicit", RL[RECODES[v].li].code);
         add_op(O_CRYPT, 1, 1, 0, "crypt(slot1,pw1)"); add_op(O_CRYPT, 1, 3, 0, "crypt(slot1,pw3)");
+    } else if (P_TABLES) {
+        /* seeds that outlive the dependency table they were made under: two tables with the same allocator entries (so re-injection is allowed
+         * while seeds are alive), every operation on a seed then goes through the table in force */
+        NSLOT = 2; PASSWORDS[0] = "pw"; PASSWORDS[1] = "\xC3\xA9"; NPW = 2; RECODES[0] = (struct recv){ 0, 5, 1 }; RECODES[1] = (struct recv){ 2, 2047, 0 }; NREC = 2;
+        for (int s = 0; s < 2; s++) { add_op(O_CREATE, s, s ? 1 : 0, s, "create(slot%d,features=%d)", s, s ? 1 : 0); add_op(O_FREE, s, 0, 0, "free(slot%d)", s); add_op(O_CRYPT, s, s, 0, "crypt(slot%d,pw%d)", s, s); }
+        add_op(O_RELOAD, 0, 1, 0, "load(store(slot0))->slot1"); for (int v = 0; v < NREC; v++) add_op(O_RECODE, 0, 1, v, "decode%s(encode(slot0,%s))->slot1", RECODES[v].autodetect ? "" : "_explicit", RL[RECODES[v].li].code);
+        add_op(O_ENABLE, 1, 0, 0, "enable_features(1)");
+        add_op(O_INJECT, 0, 0, 0, "inject(A)"); add_op(O_INJECT, 1, 0, 0, "inject(B)"); add_op(O_INJECT, 1, 1, 0, "inject(B:time=NULL)"); add_op(O_INJECT, 0, 1, 0, "inject(A:time=NULL)");
+        add_op(O_ARM, 0, 0, 0, "arm-allocation-fault"); add_op(O_BADCALL, 0, 0, 0, "load(bad-checksum)"); add_op(O_BADCALL, 4, 0, 0, "decode(wrong-coin)");
     } else if (P_INJECT) {
         NSLOT = 1;
         for (int t = 0; t < 2; t++) for (int np = 0; np < 8; np++) add_op(O_INJECT, t, np, 0, "inject(table%c,null:%s%s%s)", 'A' + t, np & 1 ? "time " : "", np & 2 ? "alloc " : "", np & 4 ? "free" : "");
